@@ -33,15 +33,25 @@ class Encoded:
         self.unsupported = []
         self.scope_of = {}        # tag -> path of the generated function the node's code is emitted into
         self.mark_tag = {}        # marker id ("ASG3", "LOOP4", …) -> tag of the node containing M__('<id>:…')
+        self.loop_fors = []       # tags of `% for` lines whose line or suite mentions `loop` (codegen.LoopVariable)
 
 
 SID = re.compile(r"S__\((\d+)\s*,")
 MID = re.compile(r"M__\('([A-Z]+\d+):")
 
 
-def encode_template(text, imports=(), filename=None):
+def _generated_flag(name):
+    """a Bool fact of lean/MakoModel/Generated/Names.lean (regenerated from the code under test before every run)"""
+    import os
+    path = os.path.join(os.path.dirname(os.path.dirname(os.path.abspath(__file__))), "lean", "MakoModel", "Generated", "Names.lean")
+    m = re.search(r"def %s : Bool := (true|false)" % name, open(path, encoding="utf-8").read())
+    return bool(m) and m.group(1) == "true"
+
+
+def encode_template(text, imports=(), filename=None, loop_enabled=True):
     """lex `text` with the real lexer and encode its node tree"""
     from mako import lexer, parsetree, ast as mast
+    for_reads_loop = _generated_flag("forLineReadsLoop")
     node = lexer.Lexer(text, filename).parse()
     e = Encoded()
     counter = [0]
@@ -80,7 +90,17 @@ def encode_template(text, imports=(), filename=None):
                 if n.isend:
                     continue
                 t = tag_of(n, [n.text])
-                out += ["L", str(t), enc_names(sorted(n.declared_identifiers())), enc_names(sorted(n.undeclared_identifiers()))]
+                if n.keyword == "for":
+                    from mako import codegen
+                    lv = codegen.LoopVariable()
+                    n.accept_visitor(lv)
+                    if lv.detected:
+                        e.loop_fors.append(t)
+                und = set(n.undeclared_identifiers())
+                if t in e.loop_fors and for_reads_loop and (loop_enabled or e.page_enable_loop):
+                    # _Identifiers.visitControlLine (regenerated fact): such a line counts as a reader of `loop`
+                    und.add("loop")
+                out += ["L", str(t), enc_names(sorted(n.declared_identifiers())), enc_names(sorted(und))]
             elif isinstance(n, parsetree.Code):
                 if n.ismodule:
                     if top:
@@ -146,7 +166,8 @@ def request(e, strict, enable_loop, imp=(), ctx=(), bi=(), extra=(), stops=(), c
     head = ["names", "full", enc_names(sorted(e.module_declared)), enc_names(e.ns_names),
             "1" if e.has_ns_imports else "0", "1" if strict else "0", "1" if el else "0", "1" if enable_loop else "0",
             enc_names(sorted(imp)), enc_names(sorted(ctx)), enc_names(sorted(ctx_none)), enc_names(sorted(bi)), enc_names(sorted(extra)),
-            "+".join(str(s) for s in stops) if stops else "_"]
+            "+".join(str(s) for s in stops) if stops else "_",
+            "+".join(str(s) for s in e.loop_fors) if e.loop_fors else "_"]
     return " ".join(head + e.tokens)
 
 
@@ -187,7 +208,8 @@ def parse_full(resp):
             "mlocals": None if f["M"] == "none" else set(dec_names(f["M"])),
             "decls": decls, "order": dec_names(f["O"]),
             "mlocals_order": None if f["MO"] == "none" else dec_names(f["MO"]), "conflicts": dec_names(f["X"]),
-            "updates": None if f["U"] == "-" else [dec_names(x) for x in f["U"].split("/")[1:]], "entry_errors": dec_names(f["E"]), "res": res}
+            "updates": None if f["U"] == "-" else [dec_names(x) for x in f["U"].split("/")[1:]], "entry_errors": dec_names(f["E"]), "res": res,
+            "for_errors": [] if f["FE"] == "_" else [int(x) for x in f["FE"].split("+")]}
     assert c.startswith("C=") and ml.startswith("ML=")
     mls = {}
     if ml[3:] != "_":
